@@ -140,7 +140,9 @@ fn scale_default_axis_metrics(
     {
         let unscaled_blue = &blues[blue_ix];
         let scaled = fixed_mul(axis.scale, unscaled_blue.overshoot);
-        let fitted = (scaled + 40) & !63;
+        // FreeType computes the scaled values below with a (64-bit) FT_Pos
+        // where they can't overflow. Ours are 32-bit so wrap instead.
+        let fitted = scaled.wrapping_add(40) & !63;
         if scaled != fitted && dim == Axis::VERTICAL {
             let new_scale = fixed_mul_div(axis.scale, fitted, scaled);
             // Scaling should not adjust by more than 2 pixels
@@ -148,7 +150,7 @@ fn scale_default_axis_metrics(
             for blue in blues {
                 max_height = max_height.max(blue.ascender).max(-blue.descender);
             }
-            let mut dist = fixed_mul(max_height, new_scale - axis.scale).abs();
+            let mut dist = fixed_mul(max_height, new_scale.wrapping_sub(axis.scale)).wrapping_abs();
             dist &= !127;
             if dist == 0 {
                 axis.scale = new_scale;
@@ -201,7 +203,7 @@ fn scale_default_axis_metrics(
                     delta = -delta;
                 }
                 blue.position.fitted = pix_round(blue.position.scaled);
-                blue.overshoot.fitted = blue.position.fitted - delta;
+                blue.overshoot.fitted = blue.position.fitted.wrapping_sub(delta);
                 blue.is_active = true;
             }
             axis.blues.push(blue);
@@ -286,9 +288,9 @@ fn scale_cjk_axis_metrics(
                 delta2 = pix_round(delta2);
             }
             if delta1 < 0 {
-                delta2 = -delta2;
+                delta2 = delta2.wrapping_neg();
             }
-            blue.overshoot.fitted = blue.position.fitted - delta2;
+            blue.overshoot.fitted = blue.position.fitted.wrapping_sub(delta2);
             blue.is_active = true;
         }
         axis.blues.push(blue);
